@@ -1,8 +1,10 @@
 mod c10;
+mod c15;
 mod core;
 mod refpos;
 mod synchecks;
 mod texts;
+mod ws;
 
 use crate::core::{Check, Tier};
 
@@ -10,9 +12,10 @@ static C01: synchecks::SynCheck = synchecks::SynCheck { mode: synchecks::Mode::L
 static C02: synchecks::SynCheck = synchecks::SynCheck { mode: synchecks::Mode::Totality };
 
 static C10: c10::C10 = c10::C10;
+static C15: c15::C15 = c15::C15;
 
 fn registry() -> Vec<&'static dyn Check> {
-    vec![&C01, &C02, &C10]
+    vec![&C01, &C02, &C10, &C15]
 }
 
 fn usage() -> ! {
